@@ -7,6 +7,7 @@ import (
 	"strings"
 
 	"golang.org/x/tools/go/ssa"
+	"golang.org/x/tools/go/ssa/ssautil"
 )
 
 // Packages whose functions are treated as having no effect on the verified state (logging, metrics).
@@ -82,6 +83,7 @@ func sigResult(fr *Frame, name string, x *Exec, i int) types.Type { return nil }
 // DefaultModels returns the built-in library models.
 func DefaultModels() map[string]Model {
 	m := map[string]Model{}
+	registerIOModels(m)
 	errT := types.Universe.Lookup("error").Type()
 	m["fmt.Errorf"] = func(x *Exec, fr *Frame, st *State, args []Value, pos token.Pos) []Outcome {
 		return retOne(st, x.freshError(st, errT))
@@ -776,6 +778,38 @@ func (x *Exec) logCall(st *State, name string, args []Value) {
 	}
 }
 
+// freshLogEntry gives the ghost call log unconstrained entries (arguments and results) for a function that an
+// abstracted callee may have called, unless the path already has them.
+func (x *Exec) freshLogEntry(st *State, name string) {
+	if st.calls == nil {
+		st.calls = map[string][]Value{}
+	}
+	if x.logFuncs == nil {
+		x.logFuncs = map[string]*ssa.Function{}
+		for fn := range ssautil.AllFunctions(x.prog) {
+			x.logFuncs[strings.ReplaceAll(fn.String(), modulePrefix, "")] = fn
+		}
+	}
+	fn := x.logFuncs[name]
+	if fn == nil {
+		return
+	}
+	if _, ok := st.calls[name]; !ok {
+		var as []Value
+		for _, p := range fn.Params {
+			as = append(as, x.freshValue(st, "logarg", p.Type()))
+		}
+		st.calls[name] = as
+	}
+	if _, ok := st.calls[name+"#ret"]; !ok {
+		var rs []Value
+		for i := 0; i < fn.Signature.Results().Len(); i++ {
+			rs = append(rs, x.freshValue(st, "logret", fn.Signature.Results().At(i).Type()))
+		}
+		st.calls[name+"#ret"] = rs
+	}
+}
+
 func registerSpecBuiltins(x *Exec) {
 	// lastarg("pkg.Func", i): i-th argument of the most recent call to the function (receiver is 0)
 	x.specBuiltins["lastarg"] = func(sc *specScope, n *ECall) Value {
@@ -785,7 +819,9 @@ func registerSpecBuiltins(x *Exec) {
 			unsup("spec: lastarg(\"func\", index)")
 		}
 		if sc.assumeMode {
-			unsup("spec: lastarg: no recorded call to %s in the caller's scope", lit.Text)
+			// a callee's clause about its own call log, stated in the caller: the callee's (abstracted) calls
+			// become fresh entries of the caller's log
+			x.freshLogEntry(sc.st, lit.Text)
 		}
 		as, ok := sc.st.calls[lit.Text]
 		i := 0
@@ -829,7 +865,7 @@ func registerSpecBuiltins(x *Exec) {
 			unsup("spec: lastret(\"func\", index)")
 		}
 		if sc.assumeMode {
-			unsup("spec: lastret: no recorded call to %s in the caller's scope", lit.Text)
+			x.freshLogEntry(sc.st, lit.Text)
 		}
 		as, ok := sc.st.calls[lit.Text+"#ret"]
 		i := 0
